@@ -148,3 +148,199 @@ Qed.
 
 Definition header_checksums_verify :=
   conj ipv4_checksum_verifies (conj udp_checksum_verifies tcp_checksum_verifies).
+
+(* ---------- the incremental helpers IPv4.EncodePartial and TCP.EncodePartial ---------- *)
+Tactic Notation "cells" ident(b) integer(n) hyp(H) := do n (destruct b as [|?x b]; [cbn [length] in H; lia|]).
+Ltac hdr_eval :=
+  cbn -[Z.mul Z.add Z.sub Z.opp Z.div Z.modulo Z.pow Z.ltb Z.leb Z.eqb Z.even w8 w16 w32 bor1 checksum lnot16 Z.to_nat Z.of_nat].
+
+Ltac hev H :=
+  cbn -[Z.mul Z.add Z.sub Z.opp Z.div Z.modulo Z.pow Z.ltb Z.leb Z.eqb Z.even w8 w16 w32 bor1 checksum lnot16 Z.to_nat Z.of_nat] in H.
+
+Lemma oc_partial T tl : 0 <= T -> 0 <= tl ->
+  oc_norm (T + tl + lnot16 (oc_norm (oc_norm T + tl))) = 65535.
+Proof.
+  intros HT Htl. rewrite oc_norm_add by lia. apply oc_norm_complement. lia.
+Qed.
+
+(* IPv4.EncodePartial: if the partial checksum is the sum of the header with the total-length and
+   checksum fields zeroed, the header it produces carries the total length and verifies *)
+Theorem ipv4_encodePartial_verifies b hl bz p tl b' :
+  bytes_ok b -> ipv4_headerLength b = Some hl -> 12 <= hl -> (Z.to_nat hl <= length b)%nat -> is_u16 tl ->
+  obind (ipv4_setTotalLength b 0) (fun x => ipv4_setChecksum x 0) = Some bz ->
+  ipv4_calculateChecksum bz = Some p ->
+  ipv4_encodePartial b p tl = Some b' ->
+  ipv4_totalLength b' = Some tl /\ ipv4_calculateChecksum b' = Some 65535.
+Proof.
+  intros Hb Hhl H12 Hlen Htl Hz Hp He.
+  assert (Hl12 : (12 <= length b)%nat) by lia.
+  unfold ipv4_encodePartial, ipv4_setTotalLength, ipv4_setChecksum, ipv4_calculateChecksum,
+    ipv4_headerLength, ipv4_totalLength in *.
+  cells b 12 Hl12. hev Hz. hev Hhl. hev He.
+  assert (Ebz : bz = x :: x0 :: w8 (0 / 2^8) :: w8 0 :: x3 :: x4 :: x5 :: x6 :: x7 :: x8 :: w8 (0 / 2^8) :: w8 0 :: b) by congruence.
+  subst bz. clear Hz. hev Hp.
+  assert (E : w8 (x mod 16 * 4) = hl) by congruence. rewrite E in *. clear Hhl.
+  set (m := (Z.to_nat hl - 12)%nat).
+  replace (Z.to_nat hl) with (12 + m)%nat in * by lia.
+  hev Hp. hev Hlen.
+  assert (Lm : (m <= length b)%nat) by lia.
+  assert (Eb' : b' = x :: x0 :: w8 (tl / 2 ^ 8) :: w8 tl :: x3 :: x4 :: x5 :: x6 :: x7 :: x8
+                 :: w8 (lnot16 (checksum [w8 (tl / 2 ^ 8); w8 tl] p) / 2 ^ 8)
+                 :: w8 (lnot16 (checksum [w8 (tl / 2 ^ 8); w8 tl] p)) :: b) by congruence.
+  subst b'. clear He.
+  change (w8 (0 / 2 ^ 8)) with 0 in Hp. change (w8 0) with 0 in Hp.
+  rewrite getN_at in Hp by (cbn [length Nat.add]; lia). cbn [obind] in Hp.
+  unfold bytes_at in Hp. cbn [skipn firstn] in Hp.
+  assert (Ep : p = checksum (x :: x0 :: 0 :: 0 :: x3 :: x4 :: x5 :: x6 :: x7 :: x8 :: 0 :: 0 :: firstn m b) 0) by congruence.
+  clear Hp.
+  unfold is_u16 in Htl.
+  split.
+  - unfold get16. cbn [nth_error obind]. rewrite be16_rt by lia. reflexivity.
+  - cbn [get8 nth_error obind]. rewrite E.
+    replace (Z.to_nat hl) with (12 + m)%nat by lia.
+    rewrite getN_at by (cbn [length Nat.add]; lia). cbn [obind]. unfold bytes_at. cbn [skipn firstn Nat.add].
+    f_equal.
+    (* byte facts *)
+    unfold bytes_ok in Hb.
+    repeat (match goal with H : Forall _ (_ :: _) |- _ => apply Forall_cons_iff in H; destruct H as [? H] end).
+    assert (Hf : bytes_ok (firstn m b)) by (apply Forall_firstn; assumption).
+    assert (Z0 : is_byte 0) by (unfold is_byte; lia).
+    assert (Hm : Z.of_nat m <= 300).
+    { unfold w8 in E. change (2^8) with 256 in E. Z.div_mod_to_equations. lia. }
+    assert (Hzb : bytes_ok (x :: x0 :: 0 :: 0 :: x3 :: x4 :: x5 :: x6 :: x7 :: x8 :: 0 :: 0 :: firstn m b)).
+    { repeat (apply Forall_cons; [assumption|]). exact Hf. }
+    assert (Lf : length (firstn m b) = m) by (rewrite firstn_length; lia).
+    assert (Hp16 : is_u16 p).
+    { subst p. apply checksum_u16; [exact Hzb|unfold is_u16; lia|cbn [length]; rewrite Lf; lia]. }
+    rewrite checksum_closed in Ep by (first [exact Hzb | unfold is_u16; lia | cbn [length]; rewrite Lf; lia]).
+    set (c := checksum [w8 (tl / 2 ^ 8); w8 tl] p) in *.
+    assert (Ec : c = oc_norm (p + tl)).
+    { subst c. rewrite checksum_closed; [|repeat (apply Forall_cons; [apply w8_byte|]); constructor|exact Hp16|cbn; lia].
+      unfold total. cbn [be_words zsum fold_right]. rewrite Z.add_0_r, be16_rt by lia. reflexivity. }
+    assert (Hc16 : is_u16 c).
+    { rewrite Ec. apply oc_norm_u16. unfold is_u16 in Hp16. lia. }
+    destruct (lnot16_bytes c Hc16) as (L1 & L2 & L3).
+    rewrite checksum_closed.
+    + unfold total in *. cbn [be_words zsum fold_right] in *.
+      pose proof (zsum_bound _ (be_words_u16 _ Hf)) as Hzs. unfold zsum in Hzs.
+      unfold is_byte in *.
+      rewrite be16_rt by lia. rewrite be16_rt by (unfold lnot16, is_u16 in *; lia).
+      set (S0 := fold_right Z.add 0 (be_words (firstn m b))) in *.
+      rewrite Ec, Ep.
+      match goal with |- oc_norm ?e = _ =>
+        replace e with ((0 + (x * 256 + x0 + (0 * 256 + 0 + (x3 * 256 + x4 + (x5 * 256 + x6 + (x7 * 256 + x8 + (0 * 256 + 0 + S0))))))) + tl +
+                        lnot16 (oc_norm (oc_norm (0 + (x * 256 + x0 + (0 * 256 + 0 + (x3 * 256 + x4 + (x5 * 256 + x6 + (x7 * 256 + x8 + (0 * 256 + 0 + S0))))))) + tl))) by (unfold lnot16; ring)
+      end.
+      apply oc_partial; lia.
+    + repeat (apply Forall_cons; [first [assumption | apply w8_byte]|]). exact Hf.
+    + unfold is_u16. lia.
+    + cbn [length]. rewrite Lf. lia.
+Qed.
+
+(* TCP.EncodePartial: if the partial checksum is the sum (from q) of the header with the fields it
+   is about to write (seq, ack, flags, window, checksum) zeroed, the segment header it produces
+   verifies against q and the length *)
+Theorem tcp_encodePartial_verifies b d bz q p len sq ak fl wnd b' :
+  bytes_ok b -> tcp_dataOffset b = Some d -> 20 <= d -> (Z.to_nat d <= length b)%nat ->
+  is_u16 q -> is_u16 len -> 0 <= sq < 2^32 -> 0 <= ak < 2^32 -> 0 <= fl < 256 -> is_u16 wnd ->
+  obind (tcp_encodeSubset b 0 0 0 0) (fun x => tcp_setChecksum x 0) = Some bz ->
+  obind (getN bz 0 (Z.to_nat d)) (fun h => Some (checksum h q)) = Some p ->
+  tcp_encodePartial b p len sq ak fl wnd = Some b' ->
+  tcp_calculateChecksum b' q len = Some 65535.
+Proof.
+  intros Hb Hd H20 Hlen Hq Hl Hsq Hak Hfl Hw Hz Hp He.
+  assert (Hl20 : (20 <= length b)%nat) by lia.
+  unfold tcp_encodePartial, tcp_encodeSubset, tcp_setChecksum, tcp_calculateChecksum, tcp_dataOffset in *.
+  cells b 20 Hl20. hev Hz. hev Hd. hev He.
+  assert (E : w8 (x11 / 2 ^ 4 * 4) = d) by congruence. clear Hd.
+  set (m := (Z.to_nat d - 20)%nat).
+  assert (Lm : (m <= length b)%nat) by (cbn [length] in Hlen; lia).
+  replace (Z.to_nat d) with (20 + m)%nat in * by lia.
+  unfold bytes_ok in Hb.
+  repeat (match goal with H : Forall _ (_ :: _) |- _ => apply Forall_cons_iff in H; destruct H as [? H] end).
+  assert (Hf : bytes_ok (firstn m b)) by (apply Forall_firstn; assumption).
+  assert (Lf : length (firstn m b) = m) by (rewrite firstn_length; lia).
+  assert (Hm : Z.of_nat m <= 300).
+  { unfold w8 in E. change (2^8) with 256 in E. change (2^4) with 16 in E. Z.div_mod_to_equations. lia. }
+  (* name the bytes EncodePartial writes *)
+  change (w8 (0 / 2 ^ 24)) with 0 in Hz. change (w8 (0 / 2 ^ 16)) with 0 in Hz.
+  change (w8 (0 / 2 ^ 8)) with 0 in Hz. change (w8 0) with 0 in Hz.
+  assert (Ebz : bz = x :: x0 :: x1 :: x2 :: 0 :: 0 :: 0 :: 0 :: 0 :: 0 :: 0 :: 0 :: x11 :: 0 :: 0 :: 0 :: 0 :: 0 :: x17 :: x18 :: b) by congruence.
+  subst bz. clear Hz.
+  rewrite getN_at in Hp by (cbn [length Nat.add]; lia). cbn [obind] in Hp.
+  unfold bytes_at in Hp. cbn [skipn firstn Nat.add] in Hp.
+  assert (Ep : p = checksum (x :: x0 :: x1 :: x2 :: 0 :: 0 :: 0 :: 0 :: 0 :: 0 :: 0 :: 0 :: x11 :: 0 :: 0 :: 0 :: 0 :: 0 :: x17 :: x18 :: firstn m b) q) by congruence.
+  clear Hp.
+  set (s0 := w8 (sq / 2 ^ 24)) in *. set (s1 := w8 (sq / 2 ^ 16)) in *. set (s2 := w8 (sq / 2 ^ 8)) in *. set (s3 := w8 sq) in *.
+  set (a0 := w8 (ak / 2 ^ 24)) in *. set (a1 := w8 (ak / 2 ^ 16)) in *. set (a2 := w8 (ak / 2 ^ 8)) in *. set (a3 := w8 ak) in *.
+  set (w0 := w8 (wnd / 2 ^ 8)) in *. set (w1 := w8 wnd) in *.
+  set (c0 := checksum [w8 (len / 2 ^ 8); w8 len; w8 (fl / 2 ^ 8); w8 fl] p) in *.
+  set (c1 := checksum [s0; s1; s2; s3; a0; a1; a2; a3] c0) in *.
+  set (c2 := checksum [w0; w1] c1) in *.
+  assert (Bs : is_byte s0 /\ is_byte s1 /\ is_byte s2 /\ is_byte s3 /\ is_byte a0 /\ is_byte a1 /\ is_byte a2 /\
+               is_byte a3 /\ is_byte w0 /\ is_byte w1) by (repeat apply conj; apply w8_byte).
+  destruct Bs as (Bs0 & Bs1 & Bs2 & Bs3 & Ba0 & Ba1 & Ba2 & Ba3 & Bw0 & Bw1).
+  assert (Z0 : is_byte 0) by (unfold is_byte; lia).
+  assert (Efl : w8 fl = fl) by (unfold w8; change (2^8) with 256; apply Z.mod_small; lia).
+  assert (Efl0 : w8 (fl / 2 ^ 8) = 0) by (unfold w8; change (2^8) with 256; Z.div_mod_to_equations; lia).
+  assert (Bfl : is_byte fl) by (unfold is_byte; lia).
+  assert (Eb' : b' = x :: x0 :: x1 :: x2 :: s0 :: s1 :: s2 :: s3 :: a0 :: a1 :: a2 :: a3 :: x11 :: w8 fl :: w0 :: w1
+                 :: w8 (lnot16 c2 / 2 ^ 8) :: w8 (lnot16 c2) :: x17 :: x18 :: b) by congruence.
+  subst b'. clear He. cbv zeta.
+  cbn [get8 nth_error obind]. rewrite E.
+  replace (Z.to_nat d) with (20 + m)%nat by lia.
+  rewrite getN_at by (cbn [length Nat.add]; lia). cbn [obind]. unfold bytes_at. cbn [skipn firstn Nat.add].
+  f_equal.
+  unfold is_u16 in *.
+  pose proof (zsum_bound _ (be_words_u16 _ Hf)) as Hzs. unfold zsum in Hzs.
+  set (S0 := fold_right Z.add 0 (be_words (firstn m b))) in *.
+  (* the zeroed header and its sum *)
+  assert (Hzb : bytes_ok (x :: x0 :: x1 :: x2 :: 0 :: 0 :: 0 :: 0 :: 0 :: 0 :: 0 :: 0 :: x11 :: 0 :: 0 :: 0 :: 0 :: 0 :: x17 :: x18 :: firstn m b)).
+  { repeat (apply Forall_cons; [assumption|]). exact Hf. }
+  rewrite checksum_closed in Ep by (first [exact Hzb | unfold is_u16; lia | cbn [length]; rewrite Lf; lia]).
+  unfold total in Ep. cbn [be_words zsum fold_right] in Ep. fold S0 in Ep.
+  set (Tz := x * 256 + x0 + (x1 * 256 + x2 + (0 * 256 + 0 + (0 * 256 + 0 + (0 * 256 + 0 + (0 * 256 + 0 + (x11 * 256 + 0 + (0 * 256 + 0 + (0 * 256 + 0 + (x17 * 256 + x18 + S0)))))))))) in *.
+  unfold is_byte in *.
+  assert (HTz : 0 <= Tz) by (subst Tz; lia).
+  assert (Hp16 : 0 <= p < 65536) by (rewrite Ep; apply oc_norm_u16; lia).
+  assert (Ec0 : c0 = oc_norm (q + Tz + len + fl)).
+  { subst c0. rewrite checksum_closed; [|repeat (apply Forall_cons; [apply w8_byte|]); constructor|exact Hp16|cbn; lia].
+    unfold total. cbn [be_words zsum fold_right]. rewrite be16_rt by lia. rewrite Efl0, Efl, Ep.
+    replace (oc_norm (q + Tz) + (len + (0 * 256 + fl + 0))) with (oc_norm (q + Tz) + (len + fl)) by ring.
+    rewrite oc_norm_add by lia. f_equal. ring. }
+  assert (Hc0 : 0 <= c0 < 65536) by (rewrite Ec0; apply oc_norm_u16; lia).
+  set (SA := s0 * 256 + s1 + (s2 * 256 + s3 + (a0 * 256 + a1 + (a2 * 256 + a3 + 0)))).
+  assert (HSA : 0 <= SA) by (subst SA; lia).
+  assert (Ec1 : c1 = oc_norm (q + Tz + len + fl + SA)).
+  { subst c1. rewrite checksum_closed; [|repeat (apply Forall_cons; [unfold is_byte; assumption|]); constructor|exact Hc0|cbn; lia].
+    unfold total. cbn [be_words zsum fold_right]. fold SA. rewrite Ec0. apply oc_norm_add; lia. }
+  assert (Hc1 : 0 <= c1 < 65536) by (rewrite Ec1; apply oc_norm_u16; lia).
+  set (WW := w0 * 256 + w1).
+  assert (Ec2 : c2 = oc_norm (q + Tz + len + fl + SA + WW)).
+  { subst c2. rewrite checksum_closed; [|repeat (apply Forall_cons; [unfold is_byte; assumption|]); constructor|exact Hc1|cbn; lia].
+    unfold total. cbn [be_words zsum fold_right]. rewrite Ec1.
+    replace (oc_norm (q + Tz + len + fl + SA) + (w0 * 256 + w1 + 0)) with (oc_norm (q + Tz + len + fl + SA) + WW) by (subst WW; ring).
+    apply oc_norm_add; subst WW; lia. }
+  assert (Hc2 : is_u16 c2) by (rewrite Ec2; apply oc_norm_u16; subst WW; lia).
+  destruct (lnot16_bytes c2 Hc2) as (L1 & L2 & L3). unfold is_u16, is_byte in *.
+  (* the header EncodePartial produced *)
+  assert (Hi : 0 <= checksum [w8 (len / 2 ^ 8); w8 len] q < 65536).
+  { apply checksum_u16; [repeat (apply Forall_cons; [apply w8_byte|]); constructor|exact Hq|cbn; lia]. }
+  assert (Ei : checksum [w8 (len / 2 ^ 8); w8 len] q = oc_norm (q + len)).
+  { rewrite checksum_closed; [|repeat (apply Forall_cons; [apply w8_byte|]); constructor|exact Hq|cbn; lia].
+    unfold total. cbn [be_words zsum fold_right]. rewrite be16_rt by lia. f_equal. ring. }
+  rewrite checksum_closed.
+  - unfold total. cbn [be_words zsum fold_right]. fold S0.
+    rewrite be16_rt by (unfold lnot16; lia). rewrite Efl, Ei.
+    match goal with |- oc_norm (oc_norm (q + len) + ?T) = _ =>
+      replace T with (Tz + fl + SA + WW + lnot16 c2) by (subst Tz SA WW; clearbody S0; lia)
+    end.
+    rewrite oc_norm_add by (subst WW; unfold lnot16; lia).
+    replace (q + len + (Tz + fl + SA + WW + lnot16 c2)) with ((q + Tz + len + fl + SA + WW) + lnot16 c2) by ring.
+    rewrite Ec2. apply oc_norm_complement. subst WW. lia.
+  - repeat (apply Forall_cons; [first [unfold is_byte; assumption | apply w8_byte]|]). exact Hf.
+  - exact Hi.
+  - cbn [length]. rewrite Lf. lia.
+Qed.
+
+Definition encodePartial_verify := conj ipv4_encodePartial_verifies tcp_encodePartial_verifies.
